@@ -67,6 +67,10 @@ func c02r1(c *Check) {
 					}
 				}
 			}
+			// every received line is counted inbound once, whatever becomes of it
+			if pa.End == "return" && pa.Count("inc:numIn") != 1 {
+				add(fmt.Sprintf("a received line increments the inbound counter %d times on this path", pa.Count("inc:numIn")), pa)
+			}
 			if pa.Has("invalid") {
 				nInvalid++
 				if pa.Count("bad.Add") != 1 || pa.Count("inc:numInvalid") != 1 || pa.Count("inc:numIn") != 1 {
